@@ -28,7 +28,7 @@ func (fs MtreeFS) CreateDir(n NodeDirectory) error {
 	attr = append(attr, fmt.Sprintf("mode=%04o", n.Mode.Perm()))
 	attr = append(attr, fmt.Sprintf("uid=%d", n.UID))
 	attr = append(attr, fmt.Sprintf("gid=%d", n.GID))
-	attr = append(attr, fmt.Sprintf("time=%d.%9d", n.MTime.Unix(), n.MTime.Nanosecond()))
+	attr = append(attr, fmt.Sprintf("time=%d.%09d", n.MTime.Unix(), n.MTime.Nanosecond()))
 	fmt.Fprintln(fs.w, strings.Join(attr, " "))
 	return nil
 }
@@ -67,7 +67,7 @@ func (fs MtreeFS) CreateSymlink(n NodeSymlink) error {
 	attr = append(attr, fmt.Sprintf("target=%s", mtreeFilename(n.Target)))
 	attr = append(attr, fmt.Sprintf("uid=%d", n.UID))
 	attr = append(attr, fmt.Sprintf("gid=%d", n.GID))
-	attr = append(attr, fmt.Sprintf("time=%d.%9d", n.MTime.Unix(), n.MTime.Nanosecond()))
+	attr = append(attr, fmt.Sprintf("time=%d.%09d", n.MTime.Unix(), n.MTime.Nanosecond()))
 	fmt.Fprintln(fs.w, strings.Join(attr, " "))
 	return nil
 }
@@ -82,7 +82,7 @@ func (fs MtreeFS) CreateDevice(n NodeDevice) error {
 	attr = append(attr, fmt.Sprintf("mode=%04o", n.Mode.Perm()))
 	attr = append(attr, fmt.Sprintf("uid=%d", n.UID))
 	attr = append(attr, fmt.Sprintf("gid=%d", n.GID))
-	attr = append(attr, fmt.Sprintf("time=%d.%9d", n.MTime.Unix(), n.MTime.Nanosecond()))
+	attr = append(attr, fmt.Sprintf("time=%d.%09d", n.MTime.Unix(), n.MTime.Nanosecond()))
 	fmt.Fprintln(fs.w, strings.Join(attr, " "))
 	return nil
 }
